@@ -12,7 +12,8 @@ REQUIRED = ["CifModel.C15_skip_depth_balanced", "CifModel.C15_skip_depth_nonneg"
             "CifModel.C15_dup_structural_any", "CifModel.C15_dup_header_dropped_column", "CifModel.C15_dup_layout",
             "CifModel.C15_start_only_callbacks", "CifModel.C15_start_only_callbacks_layout",
             "CifModel.C15_dup_is_plain_without_duplicates", "CifModel.C15_dup_stop_semantics_without_duplicates",
-            "CifModel.C15_dup_stop_semantics_store", "CifModel.C15_dup_cut_extends_mirror", "CifModel.C15_dup_events_sublist"]
+            "CifModel.C15_dup_stop_semantics_store", "CifModel.C15_dup_cut_extends_mirror", "CifModel.C15_dup_events_sublist",
+            "CifModel.C15_callbacks_formula", "CifModel.C15_callbacks_formula_layout"]
 GEN = ["ErrCodes"]
 FAMILIES = ["pcb"]
 TRUSTED_BASE = [
@@ -57,12 +58,12 @@ PARTIAL = [
     "layout; the oracle now checks the whitespace callbacks under skipping / stopping programs too: layout of a token prefix, "
     "comments always, whitespace all-or-nothing per token).  C15_layout_rendered assumes that no table of the document repeats a "
     "key (decidable hypothesis hlen)",
-    "which callbacks are delivered: exactly docEvents for all-continue programs; for programs that steer from the START callbacks "
-    "only (CONTINUE / SKIP_CURRENT / SKIP_SIBLINGS / END at cif / block / frame / loop / packet start, CONTINUE elsewhere) exactly "
-    "the formula evDoc over the document tree (Spec/TraversalEvents.lean, C15_start_only_callbacks); for programs that also "
-    "deviate at item or end callbacks, or answer error codes: a sublist of docEvents in document order (C15_events_sublist) "
-    "and, exactly, the structural interpreter xDoc (C15_stored_is_structural_any) — no formula without the depth counter there; "
-    "the STORE is characterised for every program (C15_stop_semantics_store, cutDoc)",
+    "which callbacks are delivered: for EVERY handler program (any callback answering CONTINUE, SKIP_CURRENT, SKIP_SIBLINGS, END or "
+    "an error code), every well-formed duplicate-free document, both modes, any layout: exactly the formula gDoc over the "
+    "document tree, and the return value is its second component (Spec/TraversalEventsAll.lean, C15_callbacks_formula; the only "
+    "state of the formula is the number of handler callbacks delivered); special cases: docEvents for all-continue programs, "
+    "evDoc for programs steering from the start callbacks only (C15_start_only_callbacks); the STORE for every program: "
+    "C15_stop_semantics_store (cutDoc).  Documents WITH duplicates: see below",
     "C15_syntax_only_same_log assumes a handler program that does not look at the (NULL in syntax-only mode) handles and that "
     "the storing parse does not stop on a frame-nesting diagnostic (input not well-formed under the options)",
     "duplicates (DUP_* diagnostics, accepting error callback; model parseCBD): for EVERY program and every well-formed document "
@@ -89,7 +90,7 @@ LEVEL_TEXT = ("Proof about the executable token-level models ParseCB.parseCB / p
               "the layout in order (comments always, whitespace unless skipping). For every well-formed abstract document, with any layout: "
               "all-continue callbacks = document order events and store = denotation; for EVERY program store = denotation of the document "
               "with the bypassed sub-trees removed and cut at the stopping answer (cutDoc), return value = that answer if positive else "
-              "CIF_OK; for programs steering from the start callbacks the delivered callbacks = the formula evDoc. Duplicates (DUP_* "
+              "CIF_OK, and the delivered callbacks and the return value = the formula gDoc (every program). Duplicates (DUP_* "
               "diagnostics): for every program the parse = the structural interpreter xDocD, store and result = cDocD; = the plain model on duplicate-free documents; "
               "all-continue mirror incl. dropped loop columns. The models are tied to src/parser.c by differential execution in storing and "
               "syntax-only mode with an independent implementation-level oracle that restates C15, duplicates and token-level recoveries "
